@@ -1,7 +1,7 @@
 # Sizing and claim for C20 (concurrent use needs no locking; ThreadSanitizer build)
 SPEC = {
     "tsan": True,
-    "quick": {"rc_cases": 400, "rc_procs": 6, "enum": False},
+    "quick": {"rc_cases": 4000, "rc_procs": 10, "enum": False},
     "thorough": {"rc_cases": 6000, "rc_procs": 8, "enum": False, "fuzz_secs": 0},
     "assumptions": [
         "ThreadSanitizer's happens-before analysis reports unsynchronised conflicting accesses in instrumented code (all of string_theory is header code compiled into the harness) even when they do not physically overlap in the observed schedule",
